@@ -4,6 +4,7 @@
 mod conv;
 mod feelops;
 mod modelops;
+mod ops_c13;
 mod ops_c16;
 mod wsops;
 
@@ -81,6 +82,7 @@ fn dispatch(state: &mut modelops::State, req: &J) -> J {
     "threads" => guarded(|| modelops::op_threads(state, req)),
     "ws" => guarded(|| wsops::op_ws(state, req)),
     "c16" => guarded(|| ops_c16::op_c16(req)),
+    "mfeel" => guarded(|| ops_c13::op_mfeel(req)),
     _ => json!({"error": format!("unknown op '{}'", op)}),
   }
 }
